@@ -86,6 +86,24 @@ def replay(pid: str, path: str) -> int:
         else:
             print('re-run the check: ./check C16')
             return 2
+    elif kind == 'page-boundary':
+        import c16
+
+        class _Ck:
+            pid = pid_ = None
+            cov = {}
+
+            def __init__(self):
+                self.fails = []
+
+            def count(self, *a, **k):
+                pass
+
+            def fail(self, what, case, key=None):
+                self.fails.append(what)
+        ckk = _Ck()
+        c16.page_boundaries(ckk, pid=pid)
+        res = ckk.fails[0] if ckk.fails else None
     elif kind == 'damage':
         import c12
         r = c12.sweep_container((case['container_seed'], case['big'], 0, 1))
